@@ -100,6 +100,12 @@ func prop(t *rapid.T) {
 	dirty := map[*rux.Context]bool{} // contexts whose last user polluted them
 	var served []*chain.ReqState
 	var lastRec *chain.RecWriter
+	// one history in five is served on a single context the caller owns and re-initialises (Init) for every request
+	var owned *rux.Context
+	if rapid.IntRange(0, 4).Draw(t, "callerOwnedContext") == 0 {
+		owned = &rux.Context{}
+		ev.Class("history-on-one-caller-owned-context(Init+HandleContext)")
+	}
 	defer func() {
 		// a context copy kept by an earlier request is not touched by later requests
 		ncopies := 0
@@ -127,7 +133,13 @@ func prop(t *rapid.T) {
 		outTwin := st2.Serve(twin)
 
 		st := w.NewRequest(q[0], q[1])
-		st.First = func(c *rux.Context) { snapReal = snapshot(c, st, r) }
+		st.First = func(c *rux.Context) {
+			if owned != nil {
+				snapReal = snapshot(c, st, nil) // a context made by the caller belongs to no router (Router() is nil)
+			} else {
+				snapReal = snapshot(c, st, r)
+			}
+		}
 		// a server may hand the very same ResponseWriter object to consecutive requests: the recording writer of the
 		// previous request, wiped, serves this one
 		if lastRec != nil && rapid.IntRange(0, 3).Draw(t, "sameWriterObject") == 0 {
@@ -136,7 +148,12 @@ func prop(t *rapid.T) {
 			ev.Class("request:served-with-the-writer-object-of-the-previous-request")
 		}
 		lastRec = st.Rec
-		out := st.Serve(r)
+		var out chain.Outcome
+		if owned != nil {
+			out = st.ServeOn(r, owned)
+		} else {
+			out = st.Serve(r)
+		}
 		served = append(served, st)
 		ctx := fmt.Sprintf("request %d of the history: %s %q (%s)\nprogram:\n%sscripts:\n%s", i, q[0], q[1], res.Kind, prog, prog.Scripts())
 		if snapReal != snapTwin {
@@ -235,11 +252,33 @@ func propHandlerFuncHistory(t *rapid.T) {
 	w := chain.NewWorld()
 	n := rapid.IntRange(2, 8).Draw(t, "ncalls")
 	polluted := false
+	// the same with ONE context that the application keeps and re-initialises itself (Context.Init) before it hands
+	// it to the handler - what HandlerFunc.ServeHTTP does with a new context each time
+	var owned *rux.Context
+	if rapid.IntRange(0, 2).Draw(t, "appOwnedContext") == 0 {
+		owned = &rux.Context{}
+		ev.Class("HandlerFunc-history-on-one-app-owned-context(Init)")
+	}
 	for i := 0; i < n; i++ {
 		s := chain.GenScript(t, w, "hf", chain.ScriptCfg{Writes: true, Data: true, Pollute: true, Abort: 3, Nexts: []int{0, 0, 1}})
 		st := w.NewRequest("GET", "/direct")
 		snap := ""
 		st.First = func(c *rux.Context) { snap = snapshot(c, st, nil) }
+		if owned != nil {
+			owned.Init(st.Rec, st.Req)
+			w.Handler(s)(owned)
+			ev.Eval()
+			fresh := &rux.Context{}
+			fresh.Init(st.Rec, st.Req)
+			if wantSnap := snapshot(fresh, st, nil); snap != wantSnap {
+				t.Fatalf("context after Init(), call %d of %d on one app-owned context:\n   %s\na new context after Init() for the same writer and request:\n   %s\nscript %s", i, n, snap, wantSnap, s)
+			}
+			if polluted {
+				ev.Class("HandlerFunc-call-after-a-polluting-call")
+			}
+			polluted = polluted || polluting(st.Tr.String(), []*chain.Script{s})
+			continue
+		}
 		var h http.Handler = rux.HandlerFunc(w.Handler(s))
 		h.ServeHTTP(st.Rec, st.Req)
 		ev.Eval()
